@@ -50,6 +50,9 @@ type frameSpec struct {
 	// the 90 kHz values they must come out as).
 	PtsNs int64 `json:"pts_ns,omitempty"`
 	DtsNs int64 `json:"dts_ns,omitempty"`
+	// Tail (HLS route): an audio frame at the very end that may open a batch
+	// which no later frame flushes into a finished segment; it may be absent.
+	Tail bool `json:"may_stay_unflushed,omitempty"`
 }
 
 type caseSpec struct {
@@ -57,6 +60,8 @@ type caseSpec struct {
 	PPS   string `json:"pps_hex"`
 	ASC   string `json:"asc_hex"`
 	Muxer bool   `json:"through_muxer"`
+	// HLS: the frames go to hls.SegmentGenerator and the finished segments are judged.
+	HLS bool `json:"through_hls_segment_generator,omitempty"`
 	// LateParamSets: the packetizers / muxer are built while the stream's metadata
 	// holds no SPS/PPS yet (SDP without sprop-parameter-sets); they are filled in
 	// afterwards, before the first frame, the way the RTP depacketizer does when
@@ -182,9 +187,10 @@ func produce(c *caseSpec) (out []byte, err error) {
 		}
 		return fr
 	}
+	rec := &recorder{w: w} // guards the FrameWriter boundary, see hls_test.go
 	if !c.Muxer {
-		vp := mpegts.NewH264Packetizer(vm, w)
-		ap := mpegts.NewAacPacketizer(am, w)
+		vp := mpegts.NewH264Packetizer(vm, rec)
+		ap := mpegts.NewAacPacketizer(am, rec)
 		fill()
 		for _, f := range c.Frames {
 			fr := mk(f)
@@ -197,13 +203,13 @@ func produce(c *caseSpec) (out []byte, err error) {
 				return buf.Bytes(), err
 			}
 		}
-		return buf.Bytes(), nil
+		return buf.Bytes(), rec.check()
 	}
 	// Muxer: frames are queued and written by its goroutine. A sentinel frame
 	// (a non-IDR slice with a payload no generated frame has) is appended; once
 	// the tap has seen it every earlier frame has been written.
 	sentinel := append([]byte{0x21}, []byte("C09-END-OF-CASE-SENTINEL")...)
-	tw := &tapWriter{w: w, want: sentinel, seen: make(chan struct{})}
+	tw := &tapWriter{w: rec, want: sentinel, seen: make(chan struct{})}
 	mx, err := mpegts.NewMuxer(vm, am, tw, xlog.L())
 	if err != nil {
 		return nil, err
@@ -224,9 +230,9 @@ func produce(c *caseSpec) (out []byte, err error) {
 	// packets: 1 here, its 25+9 bytes fit one packet)
 	b := buf.Bytes()
 	if len(b) < 188 || len(b)%188 != 0 {
-		return b, nil
+		return b, rec.check()
 	}
-	return b[:len(b)-188], nil
+	return b[:len(b)-188], rec.check()
 }
 
 // ---------------------------------------------------------------- the oracle
@@ -262,18 +268,11 @@ func ascFields(asc []byte) (aot, idx, ch byte, plain bool) {
 	return
 }
 
-// verify is the statement of C09, clause by clause.
-func verify(c *caseSpec, ts []byte) (*stats, *failure) {
-	st := &stats{}
-	// "whole 188-byte packets starting with the sync byte", "correct modulo-16
-	// continuity counter per PID", PSI syntax + CRC, PES syntax, PTS/DTS coding:
-	r, err := tsdemux.DemuxOpt(ts, tsdemux.Options{AllowNonFFStuffing: true})
-	if err != nil {
-		return st, fail("ts-structure", "%v", err)
-	}
+// psiCheck: "begins with PAT and PMT announcing H.264 and AAC on fixed PIDs".
+func psiCheck(r *tsdemux.Result) *failure {
 	// "begins with PAT and PMT announcing H.264 and AAC on fixed PIDs"
 	if r.PAT.PacketIndex != 0 || r.Packets[0].PID != 0 {
-		return st, fail("psi", "first packet is not the PAT (PID 0x%04x)", r.Packets[0].PID)
+		return fail("psi", "first packet is not the PAT (PID 0x%04x)", r.Packets[0].PID)
 	}
 	var progs []tsdemux.Program
 	for _, p := range r.PAT.Programs {
@@ -282,11 +281,11 @@ func verify(c *caseSpec, ts []byte) (*stats, *failure) {
 		}
 	}
 	if len(progs) != 1 || len(r.PMTs) != 1 {
-		return st, fail("psi", "PAT announces %d programs, %d PMTs found", len(progs), len(r.PMTs))
+		return fail("psi", "PAT announces %d programs, %d PMTs found", len(progs), len(r.PMTs))
 	}
 	pmt := r.PMT()
 	if pmt.PacketIndex != 1 || r.Packets[1].PID != progs[0].PID {
-		return st, fail("psi", "second packet is not the PMT (PMT starts in packet %d)", pmt.PacketIndex)
+		return fail("psi", "second packet is not the PMT (PMT starts in packet %d)", pmt.PacketIndex)
 	}
 	var haveV, haveA bool
 	for _, s := range pmt.Streams {
@@ -296,24 +295,72 @@ func verify(c *caseSpec, ts []byte) (*stats, *failure) {
 		case s.StreamType == 0x0F && s.PID == audioPID: // 0x0F ISO/IEC 13818-7 audio with ADTS
 			haveA = true
 		default:
-			return st, fail("psi", "PMT announces stream_type 0x%02x on PID 0x%04x", s.StreamType, s.PID)
+			return fail("psi", "PMT announces stream_type 0x%02x on PID 0x%04x", s.StreamType, s.PID)
 		}
 	}
 	if !haveV || !haveA {
-		return st, fail("psi", "PMT lacks H.264 on 0x100 (%v) or AAC on 0x101 (%v)", haveV, haveA)
+		return fail("psi", "PMT lacks H.264 on 0x100 (%v) or AAC on 0x101 (%v)", haveV, haveA)
 	}
 	if pmt.PCRPID != videoPID {
-		return st, fail("psi", "PCR_PID 0x%04x, but PCRs are promised on the video PID", pmt.PCRPID)
+		return fail("psi", "PCR_PID 0x%04x, but PCRs are promised on the video PID", pmt.PCRPID)
+	}
+
+	return nil
+}
+
+// verify is the statement of C09, clause by clause, for one transport stream
+// holding one PES per source frame.
+func verify(c *caseSpec, ts []byte) (*stats, *failure) {
+	return verifyParts(c, [][]byte{ts}, false)
+}
+
+// hlsAudioSync is the window (100 ms in 90 kHz ticks) within which the HLS
+// segment generator replaces the stamp of an audio batch by the one it
+// extrapolates from the sample count (av/format/hls/aac_jitter.go).
+const hlsAudioSync = 9000
+
+// verifyParts judges a sequence of transport streams (one, or the finished
+// segments of an HLS stream in order) that together carry the source frames.
+// With hls set, an audio PES is a batch: a chain of ADTS frames, one per source
+// AAC frame in order, stamped for its first frame.
+func verifyParts(c *caseSpec, parts [][]byte, hls bool) (*stats, *failure) {
+	st := &stats{}
+	owner := map[*tsdemux.PES]*tsdemux.Result{}
+	var rs []*tsdemux.Result
+	var vq, aq []*tsdemux.PES
+	for k, ts := range parts {
+		where := ""
+		if len(parts) > 1 {
+			where = fmt.Sprintf("segment %d of %d: ", k+1, len(parts))
+		}
+		// "whole 188-byte packets starting with the sync byte", "correct modulo-16
+		// continuity counter per PID", PSI syntax + CRC, PES syntax, PTS/DTS coding:
+		r, err := tsdemux.DemuxOpt(ts, tsdemux.Options{AllowNonFFStuffing: true})
+		if err != nil {
+			return st, fail("ts-structure", "%s%v", where, err)
+		}
+		if f := psiCheck(r); f != nil {
+			f.msg = where + f.msg
+			return st, f
+		}
+		rs = append(rs, r)
+		for _, p := range r.PES[videoPID] {
+			owner[p] = r
+			vq = append(vq, p)
+		}
+		for _, p := range r.PES[audioPID] {
+			owner[p] = r
+			aq = append(aq, p)
+		}
 	}
 
 	sps, pps, asc := mustHex(c.SPS), mustHex(c.PPS), mustHex(c.ASC)
 	aot, sidx, ch, plain := ascFields(asc)
-	vq, aq := r.PES[videoPID], r.PES[audioPID]
 
 	classify := func(st *stats, p *tsdemux.PES) {
 		exist, created := false, false
 		for _, k := range p.PacketIndexes {
-			pk := &r.Packets[k]
+			pk := &owner[p].Packets[k]
 			switch {
 			case !pk.HasAF:
 			case pk.PCR != nil && pk.Stuffing > 0:
@@ -365,10 +412,60 @@ func verify(c *caseSpec, ts []byte) (*stats, *failure) {
 	match := func(carry [3]bool) (*stats, *failure) {
 		st := &stats{classes: append([]string(nil), st.classes...)}
 		vi, ai := 0, 0
+		var batch []tsdemux.ADTSFrame // hls: ADTS frames of the current audio PES not yet matched
 		for n, f := range c.Frames {
 			src := f.payload()
 			wantPTS, wantDTS := f.PTS, f.DTS
 			st.frame = append(st.frame, 0)
+			if f.Audio && hls {
+				// the frame is the next ADTS frame of the current batch, or opens the next batch
+				if len(batch) == 0 {
+					if ai >= len(aq) && f.Tail {
+						st.classes = append(st.classes, "hls:tail-audio-frame-not-flushed")
+						continue
+					}
+					if ai >= len(aq) {
+						return st, fail("audio-lost", "frame %d (audio, %d bytes): no PES left on PID 0x101", n, len(src))
+					}
+					p := aq[ai]
+					ai++
+					classify(st, p)
+					if p.StreamID&0xE0 != 0xC0 {
+						return st, fail("stream-id", "frame %d: audio PES has stream_id 0x%02x", n, p.StreamID)
+					}
+					if p.PTS == nil || *p.PTS+hlsAudioSync < wantPTS || *p.PTS > wantPTS+hlsAudioSync {
+						return st, fail("pts", "frame %d (first audio frame of batch %d): PES PTS decodes to %v, supplied %d (more than the 100 ms the HLS audio resynchronisation may move it)", n, ai, deref(p.PTS), wantPTS)
+					}
+					if p.PTS != nil && *p.PTS == wantPTS {
+						st.classes = append(st.classes, "hls:audio-batch-stamp-exact")
+					} else {
+						st.classes = append(st.classes, "hls:audio-batch-stamp-extrapolated")
+					}
+					if p.DTS != nil && *p.DTS != *p.PTS {
+						return st, fail("dts", "frame %d (audio): DTS %d differs from PTS %d", n, *p.DTS, *p.PTS)
+					}
+					fr, err := tsdemux.ParseADTS(p.Payload)
+					if err != nil {
+						return st, fail("adts", "audio batch %d (PES of %d ES bytes, first source frame %d of %d bytes): ADTS frames do not chain: %v", ai, len(p.Payload), n, len(src), err)
+					}
+					batch = fr
+					st.classes = append(st.classes, fmt.Sprintf("hls:audio-batch-of-%s", bucket(len(fr))))
+					if len(fr) >= 2 && len(fr[0].Payload) != len(fr[len(fr)-1].Payload) {
+						st.classes = append(st.classes, "hls:audio-batch-first-and-last-frame-differ-in-size")
+					}
+				}
+				st.classes = append(st.classes, "frame:audio")
+				fr0 := batch[0]
+				batch = batch[1:]
+				if !bytes.Equal(fr0.Payload, src) {
+					return st, fail("audio-payload", "frame %d: ADTS payload (%d bytes, at offset %d of batch %d) differs from the source AAC frame (%d bytes)", n, len(fr0.Payload), fr0.Offset, ai, len(src))
+				}
+				if plain && (fr0.Profile != aot-1 || fr0.SamplingIndex != sidx || fr0.ChannelConfig != ch) {
+					return st, fail("adts-config", "frame %d: ADTS says profile %d rate index %d channels %d, AudioSpecificConfig %x says object type %d index %d channels %d",
+						n, fr0.Profile, fr0.SamplingIndex, fr0.ChannelConfig, asc, aot, sidx, ch)
+				}
+				continue
+			}
 			if f.Audio {
 				wantDTS = wantPTS
 				if ai >= len(aq) {
@@ -506,6 +603,9 @@ func verify(c *caseSpec, ts []byte) (*stats, *failure) {
 		if ai != len(aq) {
 			return st, fail("audio-invented", "%d PES on PID 0x101 beyond what the source frames account for", len(aq)-ai)
 		}
+		if len(batch) != 0 {
+			return st, fail("audio-invented", "last audio PES holds %d ADTS frames beyond the source frames", len(batch))
+		}
 		return st, nil
 	}
 	var cnt [3]int
@@ -545,11 +645,26 @@ func verify(c *caseSpec, ts []byte) (*stats, *failure) {
 		}
 		return st, fail("video-count", "%d PES on PID 0x100 for %d frames of NAL type 1/5/6 and %d/%d/%d in-band frames of type 7/8/9: no carry/omit policy accounts for that", len(vq), base, cnt[0], cnt[1], cnt[2])
 	}
-	if len(r.NonFFStuffing) > 0 {
-		k := r.NonFFStuffing[0]
-		return st, fail("stuffing-bytes", "packet %d (PID 0x%04x): %d of %d adaptation-field stuffing bytes are not 0xFF (ISO/IEC 13818-1 2.4.3.5)", k, r.Packets[k].PID, r.Packets[k].StuffingNonFF, r.Packets[k].Stuffing)
+	for i, r := range rs {
+		if len(r.NonFFStuffing) > 0 {
+			k := r.NonFFStuffing[0]
+			return st, fail("stuffing-bytes", "part %d packet %d (PID 0x%04x): %d of %d adaptation-field stuffing bytes are not 0xFF (ISO/IEC 13818-1 2.4.3.5)", i, k, r.Packets[k].PID, r.Packets[k].StuffingNonFF, r.Packets[k].Stuffing)
+		}
 	}
 	return st, nil
+}
+
+func bucket(n int) string {
+	switch {
+	case n <= 1:
+		return "1"
+	case n <= 4:
+		return "2-4"
+	case n <= 8:
+		return "5-8"
+	default:
+		return "9+"
+	}
 }
 
 func deref(p *uint64) any {
@@ -581,6 +696,9 @@ func check(t TB, c *caseSpec, test string) *stats {
 	if err == errInfra {
 		infraOnce.Do(func() { evid.Note("muxer did not drain within 60 s in %s; case skipped (not a verdict)", test) })
 		return &stats{}
+	}
+	if ae, ok := err.(*aliasError); ok {
+		evid.Violation(t, test+"/frame-aliasing", c, "%s", ae.msg)
 	}
 	if err != nil {
 		evid.Violation(t, test+"/write-error", c, "writing returned an error: %v", err)
@@ -651,6 +769,16 @@ func TestReplayFile(t *testing.T) {
 	}
 	if err := json.Unmarshal(b, &doc); err != nil {
 		t.Fatal(err)
+	}
+	if doc.Case.HLS {
+		segs, err := produceHLS(&doc.Case)
+		if err != nil {
+			t.Fatalf("write error: %v", err)
+		}
+		if _, f := verifyParts(&doc.Case, segs, true); f != nil {
+			t.Fatalf("%s: %s", f.check, f.msg)
+		}
+		return
 	}
 	ts, err := produce(&doc.Case)
 	if err != nil {
